@@ -113,8 +113,8 @@ fn correct_model(sim: &mut Sim, writes: &[WriteInfo], i: usize, k: usize) {
     }
 }
 
-fn describe(h: usize, i: usize, k: usize, second: Option<(usize, usize)>) -> Value {
-    json!({"history": h, "write": i, "bytes": k, "second": second.map(|s| json!([s.0, s.1]))})
+fn describe(h: usize, i: usize, k: usize, second: Option<(usize, usize)>, switch: Option<usize>) -> Value {
+    json!({"history": h, "write": i, "bytes": k, "second": second.map(|s| json!([s.0, s.1])), "switch": switch})
 }
 
 struct Crasher<'a> {
@@ -122,13 +122,16 @@ struct Crasher<'a> {
     job: String,
     h: usize,
     res: &'a mut ShardResult,
+    /// Set while recovering under another manifest variant.
+    switch: Option<usize>,
 }
 
 impl<'a> Crasher<'a> {
     fn fail(&mut self, key: &str, detail: String, i: usize, k: usize, second: Option<(usize, usize)>) {
         let job = self.job.clone();
         let h = self.h;
-        self.res.violation(key, || detail, || json!({"job": job, "case": describe(h, i, k, second)}));
+        let switch = self.switch;
+        self.res.violation(key, || detail, || json!({"job": job, "case": describe(h, i, k, second, switch)}));
     }
 
     /// Recovery after a crash: the state `sim` (already corrected) on disk.
@@ -265,6 +268,7 @@ pub fn run(ctx: &mut Ctx) -> ShardResult {
         job: job.clone(),
         h,
         res: &mut res,
+        switch: None,
     };
     let mut idx = 0u64;
     for i in 0..writes.len() {
@@ -311,9 +315,57 @@ pub fn run(ctx: &mut Ctx) -> ShardResult {
             let want_second: Option<Option<(usize, usize)>> = replay_case.as_ref().map(|c| {
                 c["second"].as_array().map(|a| (a[0].as_u64().unwrap_or(0) as usize, a[1].as_u64().unwrap_or(0) as usize))
             });
-            if want_second.map(|s| s.is_none()).unwrap_or(true) {
+            let want_switch: Option<Option<usize>> = replay_case.as_ref().map(|c| c["switch"].as_u64().map(|v| v as usize));
+            if want_second.map(|s| s.is_none()).unwrap_or(true) && want_switch.map(|s| s.is_none()).unwrap_or(true) {
                 if cr.recover(&sim, hist.j, i, k, None, &what).is_some() {
                     cr.res.nontrivial += 1;
+                }
+            }
+            // The manifest is edited between the crash and the next invocation
+            // (each other variant of the template), so that records of the log -
+            // possibly the torn one - belong to steps that no longer exist; then
+            // it is edited back.  Every invocation on the way must load the log
+            // and run exactly what the model calls dirty.
+            if want_second.map(|s| s.is_none()).unwrap_or(true) {
+                for v in 0..t.variants.len() {
+                    if v == node.variant {
+                        continue;
+                    }
+                    if let Some(Some(w)) = want_switch {
+                        if w != v {
+                            continue;
+                        }
+                    } else if replay_case.is_some() {
+                        continue;
+                    }
+                    exec::restore(&after_crash);
+                    let mut n2 = Node {
+                        snap: after_crash.clone(),
+                        sim: sim.clone(),
+                        variant: node.variant,
+                        unknown: false,
+                    };
+                    apply_edit(t, &mut n2, &EditOp::Variant(v));
+                    cr.switch = Some(v);
+                    let what_v = format!("{}; then the manifest is replaced by variant {}", what, v);
+                    if let Some(after) = cr.recover(&n2.sim, hist.j, i, k, None, &what_v) {
+                        let last = after.project().clone();
+                        let mut s3 = after;
+                        s3.projects = vec![last];
+                        let mut n3 = Node {
+                            snap: exec::snapshot(),
+                            sim: s3,
+                            variant: v,
+                            unknown: false,
+                        };
+                        apply_edit(t, &mut n3, &EditOp::Variant(node.variant));
+                        let what_b = format!("{} and, after a build, edited back", what_v);
+                        if cr.recover(&n3.sim, hist.j, i, k, None, &what_b).is_some() {
+                            cr.res.nontrivial += 1;
+                            cr.res.count("recoveries_under_changed_manifest", 1);
+                        }
+                    }
+                    cr.switch = None;
                 }
             }
             if depth >= 2 || want_second.map(|s| s.is_some()).unwrap_or(false) {
